@@ -18,6 +18,7 @@ import (
 	"runtime/debug"
 	"strconv"
 	"strings"
+	"unicode/utf8"
 
 	"github.com/cube2222/octosql/octosql"
 
@@ -261,7 +262,7 @@ func judge(k kase, r result) verdict {
 		if ci {
 			key = "regex-ci-mismatch"
 			switch {
-			case escapeChangesWhenLowercased(p):
+			case lowercasingChangesPattern(p):
 				key = "regex-ci-lowercased-class"
 			case hasFoldNotLower(s) || hasFoldNotLower(p):
 				key = "regex-ci-unicode-fold"
@@ -573,12 +574,27 @@ func Run(c *core.Ctx) core.FinishOpts {
 func pickCLISample(cases []kase, n int) []kase {
 	var out []kase
 	taken := map[int]bool{}
+	// -o json cannot carry a string that is not valid UTF-8 (how the formatter mangles it is C25's
+	// subject), and a byte-reading substr may cut a rune in half; negative arguments are out of domain
+	usable := func(k kase) bool {
+		if k.fn != "substr" {
+			return true
+		}
+		if k.ints[0] < 0 || (len(k.ints) == 2 && k.ints[1] < 0) {
+			return false
+		}
+		b, _ := refSubstr(k.strs[0], k.ints[0], len(k.ints) == 2, k.ints[len(k.ints)-1])
+		return utf8.ValidString(b)
+	}
 	for i := 0; i < len(cases) && len(out) < n/2; i++ {
+		if !usable(cases[i]) {
+			continue
+		}
 		out = append(out, cases[i])
 		taken[i] = true
 	}
 	for i := 0; i < len(cases) && len(out) < n; i++ {
-		if taken[i] {
+		if taken[i] || !usable(cases[i]) {
 			continue
 		}
 		joined := strings.Join(cases[i].strs, "")
